@@ -36,6 +36,10 @@ func main() {
 		cmdMkfs(fs, os.Args[2:])
 	case "alloc":
 		cmdAlloc(fs, os.Args[2:])
+	case "xdr":
+		cmdXdr(fs, os.Args[2:])
+	case "dispatch":
+		cmdDispatch(fs, os.Args[2:])
 	default:
 		fmt.Fprintf(os.Stderr, "harness: unknown subcommand %q\n", sub)
 		os.Exit(2)
